@@ -34,6 +34,7 @@ import (
 var (
 	ErrCannotMergeTypes = fmt.Errorf("cannot merge types")
 	ErrEmptyTypesList   = fmt.Errorf("types list is empty")
+	ErrNullSubschema    = fmt.Errorf("schema must not be null")
 )
 
 // Schema is the root schema.
@@ -67,6 +68,16 @@ func (s *Schema) UnmarshalJSON(data []byte) error {
 
 	if unmarshSchema.Definitions == nil && legacySchema.Definitions != nil {
 		unmarshSchema.Definitions = legacySchema.Definitions
+	}
+
+	if err := checkNoNullSubschemas((*Type)(unmarshSchema.ObjectAsType)); err != nil {
+		return err
+	}
+
+	for name, def := range unmarshSchema.Definitions {
+		if def == nil {
+			return fmt.Errorf("%w: definition %q", ErrNullSubschema, name)
+		}
 	}
 
 	*s = Schema(unmarshSchema)
@@ -261,7 +272,37 @@ func (value *Type) UnmarshalJSON(raw []byte) error {
 		obj.DependentSchemas = legacyObj.Dependencies
 	}
 
+	if err := checkNoNullSubschemas((*Type)(&obj)); err != nil {
+		return err
+	}
+
 	*value = Type(obj)
+
+	return nil
+}
+
+// checkNoNullSubschemas rejects a JSON null where a subschema is expected inside a map or list;
+// such entries are decoded as nil pointers, which are not valid schemas.
+func checkNoNullSubschemas(t *Type) error {
+	if t == nil {
+		return nil
+	}
+
+	for _, m := range []map[string]*Type{t.Properties, t.PatternProperties, t.Definitions, t.DependentSchemas} {
+		for name, sub := range m {
+			if sub == nil {
+				return fmt.Errorf("%w: %q", ErrNullSubschema, name)
+			}
+		}
+	}
+
+	for _, l := range [][]*Type{t.AllOf, t.AnyOf, t.OneOf} {
+		for i, sub := range l {
+			if sub == nil {
+				return fmt.Errorf("%w: subschema %d", ErrNullSubschema, i)
+			}
+		}
+	}
 
 	return nil
 }
